@@ -76,9 +76,11 @@ type Conn struct {
 	closeReadCtx  context.Context
 	closeReadDone chan struct{}
 
-	closed  chan struct{}
-	closeMu sync.Mutex
-	closing bool
+	closed     chan struct{}
+	closedOnce sync.Once
+	closeMu    sync.Mutex
+	closing    bool
+	closeDone  bool
 
 	pingCounter   int32
 	activePingsMu sync.Mutex
@@ -148,14 +150,29 @@ func (c *Conn) Subprotocol() string {
 }
 
 func (c *Conn) close() error {
+	return c.closeUnlocking(nil)
+}
+
+// closeUnlocking is close for a caller that holds m, which close itself needs
+// later on. The connection is marked closed before m is released so that a
+// goroutine waiting for m observes the close instead of getting to use a
+// connection that is about to be torn down.
+func (c *Conn) closeUnlocking(m *mu) error {
+	c.closedOnce.Do(func() {
+		close(c.closed)
+	})
+	if m != nil {
+		m.unlock()
+	}
+
 	c.closeMu.Lock()
 	defer c.closeMu.Unlock()
 
-	if c.isClosed() {
+	if c.closeDone {
 		return net.ErrClosed
 	}
+	c.closeDone = true
 	runtime.SetFinalizer(c, nil)
-	close(c.closed)
 	verifPoint(c, "close.closed")
 
 	// Have to close after c.closed is closed to ensure any goroutine that wakes up
